@@ -17,6 +17,7 @@ package quickfix
 
 import (
 	"errors"
+	"math"
 	"strconv"
 )
 
@@ -36,15 +37,20 @@ func atoi(d []byte) (int, error) {
 	}
 
 	if d[0] == asciiMinus {
-		n, err := parseUInt(d[1:])
-		return (-1) * n, err
+		return parseDigits(d[1:], true)
 	}
 
-	return parseUInt(d)
+	return parseDigits(d, false)
 }
 
 // parseUInt is similar to the function in strconv, but is tuned for ints appearing in FIX field types.
 func parseUInt(d []byte) (n int, err error) {
+	return parseDigits(d, false)
+}
+
+// parseDigits reads a run of decimal digits as a non-negative number, or as the negative number of that
+// magnitude. A number that does not fit an int is an error, not the value it wraps around to.
+func parseDigits(d []byte, negative bool) (n int, err error) {
 	if len(d) == 0 {
 		err = errors.New("empty bytes")
 		return
@@ -56,7 +62,19 @@ func parseUInt(d []byte) (n int, err error) {
 			return
 		}
 
-		n = n*10 + (int(dec) - ascii0)
+		digit := int(dec) - ascii0
+		if negative {
+			// Accumulate on the negative side, which reaches one further than the positive side.
+			if n < (math.MinInt+digit)/10 {
+				return 0, errors.New("value out of range")
+			}
+			n = n*10 - digit
+		} else {
+			if n > (math.MaxInt-digit)/10 {
+				return 0, errors.New("value out of range")
+			}
+			n = n*10 + digit
+		}
 	}
 
 	return
